@@ -661,35 +661,25 @@ class MQTTProtocol(MQTTBaseProtocol):
         Purges the persistent state in the client 
         '''
         #log.debug("{event}", event="Clean Persistent Session")
-        for k in list(self.factory.windowSubscribe[self.addr]):
-            request = self.factory.windowSubscribe[self.addr][k]
-            del self.factory.windowSubscribe[self.addr][k]
-            request.deferred.errback(reason)
+        # First take everything out of the session and only then fail the requests:
+        # an errback may well publish or subscribe again, and what it requests is
+        # not part of the session being discarded.
+        purged = []
+        for windows in (self.factory.windowSubscribe, self.factory.windowUnsubscribe,
+                        self.factory.windowPublish,   self.factory.windowPubRelease):
+            purged.extend(windows[self.addr].values())
+            windows[self.addr].clear()
 
-        for k in list(self.factory.windowUnsubscribe[self.addr]):
-            request = self.factory.windowUnsubscribe[self.addr][k]
-            del self.factory.windowUnsubscribe[self.addr][k]
-            request.deferred.errback(reason)
-
-        for k in list(self.factory.windowPublish[self.addr]):
-            request = self.factory.windowPublish[self.addr][k]
-            del self.factory.windowPublish[self.addr][k]
-            request.deferred.errback(reason)
-
-        for k in list(self.factory.windowPubRelease[self.addr]):
-            request = self.factory.windowPubRelease[self.addr][k]
-            del self.factory.windowPubRelease[self.addr][k]
-            request.deferred.errback(reason)
+        # messages still waiting for a free window slot belong to the session too
+        queue = self.factory.queuePublishTx[self.addr]
+        purged.extend(request for request in queue if request.msgId)  # QoS 0 deferreds have already been fired
+        queue.clear()
 
         # so do the received QoS 2 messages waiting for a PUBREL that will not come
         self.factory.windowPubRx[self.addr].clear()
 
-        # messages still waiting for a free window slot belong to the session too
-        queue = self.factory.queuePublishTx[self.addr]
-        while queue:
-            request = queue.popleft()
-            if request.msgId:   # QoS 0 deferreds have already been fired
-                request.deferred.errback(reason)
+        for request in purged:
+            request.deferred.errback(reason)
 
 
     # -------------------------------------
